@@ -211,4 +211,11 @@ theorem convInt_inWidth (m : IMod) (cv : IConv) (n : Int) (h : intInWidth m cv n
     simp only [inInt64, Nat.reducePow, Int.reducePow, Nat.reduceSub, Nat.reduceEqDiff, if_false, if_true, Bool.false_eq_true,
       Bool.and_eq_true, decide_eq_true_eq] at h ⊢ <;> omega
 
+/-- evaluation rule: under a 64-bit signed specification an `int64_t` is printed as it is -/
+theorem printIntSpec_l_signed (cv : IConv) (hcv : cv.signed = true) (n : Int) (h : inInt64 n = true) :
+    printIntSpec .l cv n = printInt n := by
+  have h1 := convInt_inWidth .l cv n (by simpa [intInWidth, IMod.width] using h)
+  simp only [convInt, hcv, if_true] at h1
+  cases cv <;> simp [IConv.signed] at hcv <;> simp [printIntSpec, h1]
+
 end Cello.Text
